@@ -157,6 +157,7 @@ class ExteriorProduct(LinearOperator):
         # ... from now on, we construct left and right with some coeffs
         #     return is done at the end
         alpha = S.One
+        extracted = False
         if isinstance(left, Mul):
             coeffs  = [a for a in left.args if isinstance(a, _coeffs_registery)]
             vectors = [a for a in left.args if not(a in coeffs)]
@@ -171,6 +172,7 @@ class ExteriorProduct(LinearOperator):
 
             alpha *= a
             left   = b
+            extracted = extracted or bool(coeffs)
 
         if isinstance(right, Mul):
             coeffs  = [a for a in right.args if isinstance(a, _coeffs_registery)]
@@ -186,9 +188,10 @@ class ExteriorProduct(LinearOperator):
 
             alpha *= a
             right  = b
+            extracted = extracted or bool(coeffs)
         # ...
 
-        if not( alpha == S.One ):
+        if extracted:
             return alpha*cls(left, right)
 
         return cls(left, right, evaluate=False)
